@@ -40,6 +40,9 @@ def plan(features, with_disable):
         sub = r.sample(tis, 1)
         h.taint(sub)
         h.build(cfg, roots=None); notes.append(("tainted", len(h.builds) - 1, sub))
+        # the taint is consumed by that execution also when the target had to run anyway (it was edited as well, or its
+        # dependencies changed): the next build must not run it again
+        h.build(cfg, roots=None); notes.append(("consumed", len(h.builds) - 1, sub))
         return notes
     return p
 
@@ -48,7 +51,17 @@ def run(out, tier):
     n = 14 if tier == "quick" else 300
     feats = dict(hc.CLEAN); feats["nocache"] = True
     full = dict(hc.FULL); full["nocache"] = True
-    plans = []
+    def witness_taint_and_edit(h, r):
+        """build; taint t; edit t's own command; build (t runs: tainted AND changed); build (must run nothing)"""
+        mk = lambda salt: {"nodes": [{"k": "t", "pkg": "p", "name": "t", "salt": salt, "ins": [], "glob": None, "excl": [],
+                                      "outs": [("file", "o.txt")], "deps": [], "fp": {}, "nocache": False, "multi": False, "beh": "n",
+                                      "check": False, "comment": ""}], "files": {}}
+        h.set_sources(mk("v0")); h.build(hc.ALL_CACHE)
+        h.taint([0])
+        h.set_sources(mk("v1"), "command (output-relevant) of //p:t")
+        h.build(hc.ALL_CACHE); h.build(hc.ALL_CACHE)
+        return [("tainted", 1, [0]), ("consumed", 2, [0])]
+    plans = [("witness-taint-and-edit", witness_taint_and_edit)]
     plans += [("nocache-taint", plan(feats, False))] * n
     plans += [("toggle", plan(feats, True))] * n
     plans += [("full", plan(full, True))] * n
